@@ -199,7 +199,7 @@ def exec_stats(jobs):
             for ln in f:
                 if ln.startswith('{"e":"x"'):
                     xn += 1
-                elif ln.startswith(('{"e":"talloc"', '{"e":"tend"', '{"e":"fn"', '{"e":"bnd"', '{"e":"bucket"', '{"e":"mbs"', '{"e":"stk"')):
+                elif ln.startswith(('{"e":"talloc"', '{"e":"tend"', '{"e":"got"', '{"e":"scope_begin"', '{"e":"fn"', '{"e":"bnd"', '{"e":"bucket"', '{"e":"mbs"', '{"e":"stk"')):
                     okx.add(xn)
                 elif '"r":"ok"' in ln and (ln.startswith('{"e":"alloc"') or ln.startswith('{"e":"op"') or ln.startswith('{"e":"ret"')):
                     okx.add(xn)
